@@ -183,6 +183,20 @@ def run(ctx):
     ins = set(o for o, b, bi, st, k in field_write_sites(prog, AA + 'state::AutoAllocState', 'allocation_to_queue') if not is_test_util(o))
     ctx.ob('R18.5', 'allocation_to_queue|writers', ins <= {AA + 'state::AutoAllocState::add_allocation', arq.path, AA + 'state::AutoAllocState::new'}, f'allocation_to_queue is modified only by add_allocation / remove_queue (observed {sorted(x.split("::")[-1] for x in ins)})', None)
 
+    # ---- R18.7
+    DW = AA + 'state::DisconnectedWorkers'
+    dw = prog.adt(DW)
+    fields = dw.get('fields') or dw['variants'][0]['fields']
+    wf = [f for f in fields if (f['name'] if isinstance(f, dict) else f[0]) == 'workers']
+    ctx.require(wf, 'R18.7: DisconnectedWorkers.workers')
+    ty = wf[0]['ty'] if isinstance(wf[0], dict) else wf[0][1]
+    keyed = any(k in ty for k in ('HashMap<', 'BTreeMap<', 'IndexMap<', 'HashSet<', 'BTreeSet<', 'Map<', 'Set<')) and 'WorkerId' in ty.split(',')[0]
+    ctx.ob('R18.7', 'DisconnectedWorkers.workers|keyed by WorkerId', keyed, f'lost workers are stored in a map/set keyed by WorkerId (observed {ty[:90]}): a duplicate loss notification for one worker must not count twice towards the finish condition', None)
+    alw = prog.body(DW + '::add_lost_worker')
+    ctx.ob('R18.7', 'add_lost_worker|inserts by key', bool(alw.call_blocks(lambda c: c.endswith(('Map::insert', 'HashMap::insert', 'Set::insert', 'HashSet::insert', 'BTreeMap::insert', 'Entry::or_insert', 'entry')))), 'add_lost_worker inserts under the worker id', alw.loc())
+    cnt = prog.body(DW + '::count')
+    ctx.ob('R18.7', 'count|size of the keyed container', bool(cnt.call_blocks(lambda c: c.endswith('::len'))), 'count() is the number of keys', cnt.loc())
+
 
 def _is_af(b, s):
     l = s['p'][0]
@@ -234,18 +248,3 @@ def finish_test(ctx, rule):
     ctx.require(dw, 'R18.3: DisconnectedWorkers::add_lost_worker')
     addc = sy.call_blocks(dw[0].path)
     ctx.ob(rule, 'lost worker recorded before the test', bool(addc) and okeq is not None and okeq[0] not in sy.reach_from([0], avoid=addc) or not _reachable_under(sy, okeq, addc), 'the lost worker is recorded before the count is compared', sy.loc(addc[0]) if addc else sy.loc())
-
-
-    # ---- R18.7
-    DW = AA + 'state::DisconnectedWorkers'
-    dw = prog.adt(DW)
-    fields = dw.get('fields') or dw['variants'][0]['fields']
-    wf = [f for f in fields if (f['name'] if isinstance(f, dict) else f[0]) == 'workers']
-    ctx.require(wf, 'R18.7: DisconnectedWorkers.workers')
-    ty = wf[0]['ty'] if isinstance(wf[0], dict) else wf[0][1]
-    keyed = any(k in ty for k in ('HashMap<', 'BTreeMap<', 'IndexMap<', 'HashSet<', 'BTreeSet<', 'Map<', 'Set<')) and 'WorkerId' in ty.split(',')[0]
-    ctx.ob('R18.7', 'DisconnectedWorkers.workers|keyed by WorkerId', keyed, f'lost workers are stored in a map/set keyed by WorkerId (observed {ty[:90]}): a duplicate loss notification for one worker must not count twice towards the finish condition', None)
-    alw = prog.body(DW + '::add_lost_worker')
-    ctx.ob('R18.7', 'add_lost_worker|inserts by key', bool(alw.call_blocks(lambda c: c.endswith(('Map::insert', 'HashMap::insert', 'Set::insert', 'HashSet::insert', 'BTreeMap::insert', 'Entry::or_insert', 'entry')))), 'add_lost_worker inserts under the worker id', alw.loc())
-    cnt = prog.body(DW + '::count')
-    ctx.ob('R18.7', 'count|size of the keyed container', bool(cnt.call_blocks(lambda c: c.endswith('::len'))), 'count() is the number of keys', cnt.loc())
